@@ -522,6 +522,9 @@ func (p *player) play(i int, o Op) {
 		p.closed = true
 		p.sock.Close()
 	case "pause":
+		if _, armed := p.releases[o.ID]; armed {
+			return // one pause per id at a time (variants of a history may repeat the step)
+		}
 		hit, rel := p.rec.PauseAsyncClose(o.ID)
 		p.hits[o.ID], p.releases[o.ID] = hit, rel
 	case "awaitpause":
